@@ -2029,7 +2029,10 @@ class SQLModel:
             "FROM ( SELECT * FROM "
         ]
         sql_suffix = [" ) a"]
-        if len(control_cols) > 0:  # no record keys: the whole table is one record
+        if len(control_cols) < 1:
+            # no record keys: the whole table is one record, and no rows are no record
+            sql_suffix = sql_suffix + ["HAVING COUNT(1) > 0"]
+        if len(control_cols) > 0:
             sql_suffix = (
                 sql_suffix
                 + ["GROUP BY"]
